@@ -388,6 +388,11 @@ def write_evidence(prop, ev):
         json.dump(ev, f, indent=1, sort_keys=True, ensure_ascii=True)
         f.write("\n")
     os.replace(tmp, path)
+    if ev["tier"] == "thorough":
+        # the next quick run rewrites <id>.json; keep what the last thorough run covered next to it
+        with open(os.path.join(EVIDENCE_DIR, "%s.thorough.json" % prop), "w", encoding="utf-8") as f:
+            json.dump(ev, f, indent=1, sort_keys=True, ensure_ascii=True)
+            f.write("\n")
     return path
 
 
